@@ -122,6 +122,22 @@ class SymStr:
         return 'SymStr(%d)' % len(self.b)
 
 
+class ChoiceStr:
+    """string that is one of a finite list of concrete strings, chosen by a symbolic index (no forking until needed)"""
+    __slots__ = ('opts', 'idx')
+    def __init__(self, opts, idx):
+        self.opts = opts; self.idx = idx
+    def __repr__(self):
+        return 'ChoiceStr(%s)' % (self.opts,)
+    def eq_bytes(self, b):
+        cs = [self.idx == i for i, o in enumerate(self.opts) if o == b]
+        if not cs: return False
+        return z3.Or(cs) if len(cs) > 1 else cs[0]
+    def concretize(self, it):
+        k = it.concretize(self.idx, list(range(len(self.opts))))
+        return self.opts[k]
+
+
 class MapIter:
     def __init__(self, items):
         self.items = items; self.i = 0
@@ -303,6 +319,7 @@ class Interp:
         self.max_alloc = 1 << 20
         self.path_instr0 = 0
         self.memo = {}
+        self.alloc_cap = None
         self.call_hooks = {}   # fn name -> callable(interp, fn, args) -> (handled, result)
         self.store_hook = None
         self.alloc_log = None
@@ -928,6 +945,8 @@ class Interp:
             return ('P', id(k.base), k.idx)
         if isinstance(k, ArrayV):
             return ('A',) + tuple(self.hkey(x) for x in k.a)
+        if isinstance(k, ChoiceStr):
+            raise SymKey('choice string as map key')
         if isinstance(k, SymStr):
             if all(not is_sym(b) for b in k.b):
                 return bytes(k.b)
@@ -984,10 +1003,50 @@ class Interp:
             return None
         return keep[k]
 
+    def merge_vals(self, conds, vals):
+        """ite-merge of values under mutually exclusive conditions; None if the values cannot be merged"""
+        v0 = vals[0]
+        if all(isinstance(v, bool) for v in vals) or all(isinstance(v, int) and not isinstance(v, bool) for v in vals):
+            if all(v == v0 for v in vals): return v0
+            if isinstance(v0, bool):
+                r = z3.BoolVal(vals[-1])
+                for c, v in zip(conds[:-1][::-1], vals[:-1][::-1]): r = z3.If(c, z3.BoolVal(v), r)
+            else:
+                r = z3.BitVecVal(vals[-1], 64)
+                for c, v in zip(conds[:-1][::-1], vals[:-1][::-1]): r = z3.If(c, z3.BitVecVal(v, 64), r)
+            r = z3.simplify(r)
+            return r
+        if all(isinstance(v, StructV) for v in vals) and all(len(v.f) == len(v0.f) for v in vals):
+            fs = []
+            for k in range(len(v0.f)):
+                f = self.merge_vals(conds, [v.f[k] for v in vals])
+                if f is None: return None
+                fs.append(f)
+            return StructV(fs, v0.tid)
+        return None
+
     def map_lookup(self, m, key, vt):
         h = getattr(m, 'lookup', None)
         if h is not None:
             return h(self, key, vt)
+        if isinstance(key, ChoiceStr) and not m.sym:
+            # lookup with a symbolic choice among concrete strings: merge the results instead of forking
+            conds, vals, miss = [], [], []
+            for i, o in enumerate(key.opts):
+                e = m.d.get(o)
+                if e is None: miss.append(key.idx == i)
+                else: conds.append(key.idx == i); vals.append(e[1])
+            if not vals:
+                return self.T.zero(vt), False
+            # 64-bit ints only when the declared field types are int: operator tables of the parser
+            mv = self.merge_vals(conds, vals)
+            if mv is not None:
+                ok = True if not miss else self.simp_bool(z3.Not(z3.Or(miss)))
+                if ok is True:
+                    return copyval(mv), True
+                if self.branch(ok):
+                    return copyval(mv), True
+                return self.T.zero(vt), False
         w = self.map_find(m, key)
         if w is None:
             return self.T.zero(vt), False
@@ -1034,6 +1093,13 @@ class Interp:
             # unsupported (never success); otherwise bounded concretisation
             if self.branch(ln < 0):
                 self.rt_panic('makeslice: len out of range')
+            if self.alloc_cap is not None:
+                cap_, aid = self.alloc_cap
+                if self.check(ln > cap_) == z3.sat:
+                    self.alloc_violation(aid)
+                self.add(ln <= cap_)
+                if self.check() != z3.sat:
+                    raise PathEnd('allocation above the cap only')
             if self.branch(ln > (1 << 47)):
                 self.rt_panic('makeslice: len out of range')
             if self.branch(ln > self.max_alloc):
@@ -1317,6 +1383,9 @@ class Interp:
 
     def go_len(self, x):
         if isinstance(x, (bytes, SymStr)): return len(x)
+        if isinstance(x, ChoiceStr):
+            ls = set(len(o) for o in x.opts)
+            return ls.pop() if len(ls) == 1 else len(x.concretize(self))
         if isinstance(x, SliceV): return x.len
         if isinstance(x, MapV):
             h = getattr(x, 'length', None)
@@ -1546,6 +1615,10 @@ class Interp:
             if tok == '<=': return x <= y
             if tok == '>': return x > y
             if tok == '>=': return x >= y
+        if (isinstance(x, ChoiceStr) or isinstance(y, ChoiceStr)) and tok not in ('==', '!='):
+            x = x.concretize(self) if isinstance(x, ChoiceStr) else x
+            y = y.concretize(self) if isinstance(y, ChoiceStr) else y
+            return self.str_binop(tok, x, y)
         if tok == '+':
             return self.mkstr(self.str_els(x) + self.str_els(y))
         if tok in ('==', '!='):
@@ -1563,6 +1636,17 @@ class Interp:
         return SymStr(els)
 
     def str_eq(self, x, y):
+        if isinstance(x, ChoiceStr) or isinstance(y, ChoiceStr):
+            if isinstance(y, ChoiceStr) and not isinstance(x, ChoiceStr):
+                x, y = y, x
+            if isinstance(y, bytes):
+                c = x.eq_bytes(y)
+                return c if isinstance(c, bool) else self.simp_bool(c)
+            if isinstance(y, ChoiceStr):
+                if x is y or (x.opts == y.opts and x.idx.eq(y.idx)): return True
+                cs = [z3.And(x.idx == i, y.idx == j) for i, a in enumerate(x.opts) for j, b in enumerate(y.opts) if a == b]
+                return self.simp_bool(z3.Or(cs)) if cs else False
+            return self.str_eq(x.concretize(self), y)
         h = getattr(x, 'streq', None) or getattr(y, 'streq', None)
         if h is not None and not isinstance(x, (bytes, SymStr)) or not isinstance(y, (bytes, SymStr)):
             return h(self, x, y)
